@@ -661,14 +661,15 @@ def gen_fn_histories(rnd, n):
 def only_write_bodies(X):
     """function bodies (sort I) in which the object-sorted write X sits in one particular position; in the
     entries marked `alone` X is the ONLY write of the body"""
-    N6 = (None,) * 4
+    # (the result of a WITH ... SELECT is a literal, not the parameter: `with v := (insert ..) select (a)` in an
+    #  inlined body makes the SQL compiler crash with "Can't compile ref to inline parameter")
     return [
         ('with_unused', True, ('sel', [X], L(), None, None, None, None)),
-        ('with_unused_scalar', True, ('sel', [('cnt', X)], ('P',), None, None, None, None)),
+        ('with_unused_scalar', True, ('sel', [('cnt', X)], L(), None, None, None, None)),
         ('with_used', True, ('withuse', X)),
         ('with_used_scalar', True, ('withuse', ('cnt', X))),
         ('with_in_with', True, ('sel', [('sel', [X], L(), None, None, None, None)], L(), None, None, None, None)),
-        ('with_used_in_with', True, ('sel', [('withuse', X)], ('P',), None, None, None, None)),
+        ('with_used_in_with', True, ('sel', [('withuse', X)], L(), None, None, None, None)),
         ('for_body_with_used', True, ('for', ('set', [L(), L()]), ('withuse', X))),
         ('for_body_with_unused', True, ('for', ('P',), ('sel', [X], L(), None, None, None, None))),
         ('for_iterator', True, ('for', ('cnt', X), L())),
